@@ -100,6 +100,7 @@ struct World : KernelHooks, ModelHost {
 	void harness_error(const std::string &what) override;
 	void fetch_changed(int c, const JV &id) override { if (c >= 0 && c < (int)clients.size()) clients[c].replica.erase(id.dump()); }
 	void begin_termination();
+	bool observable(int c) override { if (c < 0 || c >= (int)clients.size()) return false; Client &cl = clients[c]; return !(cl.no_expect || cl.faulty || cl.closing || cl.daemon_closed); }
 
 	// scheduler
 	void schedule(uint64_t t, int type, int a, long b = 0, const std::string &s = "");
@@ -125,6 +126,7 @@ struct World : KernelHooks, ModelHost {
 	bool try_match(Client &cl, const Frame &f, std::string &why);
 	bool match_close(Client &cl);
 	void after_match(Client &cl, const Exp &e, const Frame &f);
+	void resolve_silent_decisions();
 	void check_queues_empty(const char *when);
 	void update_replica(Client &cl, const Frame &f);
 	void check_replicas();
